@@ -87,6 +87,42 @@ def run(ctx):
         return
     state_names = ["escape", "result", "terminated_by_newline"]
     locs = {n: (ws.locals_named(n) or [None])[0] for n in state_names + ["i", "pending"]}
+    # role-based fallbacks (a renamed local must not raise an alarm)
+    def _user(l):
+        return ws.local_name(l) is not None
+    if locs["result"] is None:
+        for b, t in ws.calls():
+            if t.j.get("callee_name") == "from_utf8_lossy":
+                l = _root_user_local(ws, t.args[0])
+                if l is not None:
+                    locs["result"] = l
+    if locs["pending"] is None:
+        for b, t in ws.calls():
+            if t.j.get("callee_name") == "swap" and "mem" in (t.callee or ""):
+                for a in t.args:
+                    l = _root_user_local(ws, a)
+                    if l is not None and ws.local_ty(l) == "std::vec::Vec<u8>":
+                        locs["pending"] = l
+    if locs["escape"] is None:
+        c = [l for l in range(len(ws.locals)) if _user(l) and ws.local_ty(l).startswith("std::option::Option<") and "Escape" in ws.local_ty(l)]
+        locs["escape"] = c[0] if len(c) == 1 else None
+    if locs["terminated_by_newline"] is None:
+        c = []
+        for l in range(len(ws.locals)):
+            if _user(l) and ws.local_ty(l) == "bool":
+                for d_ in prim.local_defs(ws).get(l, []):
+                    if d_[1] == "assign":
+                        o_ = prim._origin_of_def(ws, d_, 6, {l}).strip()
+                        if o_.k == "bin" and o_.a == "Eq" and any(cc.get("v") == 10 for cc in o_.consts()):
+                            c.append(l)
+        locs["terminated_by_newline"] = c[0] if len(set(c)) == 1 else None
+    if locs["i"] is None:
+        c = C.scan_index(ws)
+        if not c:
+            for l in range(len(ws.locals)):
+                if _user(l) and ws.local_ty(l) == "usize" and any(d_[1] == "assign" and d_[2].rv is not None and d_[2].rv.k == "use" and d_[2].rv.ops[0].const_value() == 0 for d_ in prim.local_defs(ws).get(l, [])):
+                    c.append(l)
+        locs["i"] = c[0] if len(c) == 1 else None
     for n, l in locs.items():
         if l is None:
             ctx.missing("R3", "local `%s` of the whitespace reader" % n)
@@ -162,14 +198,14 @@ def run(ctx):
     # EOF inside a quote => Err
     def brole(f, bb, o):
         o = o.strip()
-        if o.k == "bin" and o.a == "Eq" and any(c.get("v") == 0 for c in o.consts()) and (any(c.endswith("Read::read") for c in o.callees()) or any(x.k == "var" and (x.a.get("name") or "").startswith("bytes_read") for x in o.walk())):
+        if o.k == "bin" and o.a == "Eq" and any(c.get("v") == 0 for c in o.consts()) and (any(c.endswith("Read::read") for c in o.callees()) or any(x.k == "var" and ws.local_ty(x.a["local"]) == "usize" and any(d_[1] == "assign" and any(cc.endswith("Read::read") for cc in prim._origin_of_def(ws, d_, 8, {x.a["local"]}).callees()) for d_ in prim.local_defs(ws).get(x.a["local"], [])) for x in o.walk())):
             return "eof"
         if o.k == "discr":
             inner = o.kids[0]
-            txt = inner.fmt()
-            if "escape" in txt and "Some" in txt:
+            on_escape = any(x.k == "var" and x.a.get("local") == locs["escape"] for x in inner.walk())
+            if on_escape and any(x.k == "variant" and str(x.a) == "Some" for x in inner.walk()):
                 return "escape_kind"
-            if "escape" in txt:
+            if on_escape:
                 return "escape_is_some"
         return None
     g = C.G(prim.event_graph(ws, lambda t: None, branch_role=brole))
@@ -279,7 +315,7 @@ def run(ctx):
     # the separator test applies only outside quotes/escapes: dominated by escape == None
     for b, t in sep:
         gs = prim.dominating_guards(ws, b)
-        ok = any(gd["pred"].strip().k == "discr" and "escape" in gd["pred"].fmt() and gd["labels"] == [0] for gd in gs)
+        ok = any(gd["pred"].strip().k == "discr" and any(x.k == "var" and x.a.get("local") == locs["escape"] for x in gd["pred"].walk()) and gd["labels"] == [0] for gd in gs)
         ctx.ob("R6", "separator-only-unquoted", ok, "blanks separate arguments only outside quotes and escapes; guards: %s" % prim.guards_fmt(gs), fn=ws, where=prim.site(ws, b), how="dominating guard")
 
     # ---- R2 reader selection -----------------------------------------------------------------------------------
@@ -467,3 +503,15 @@ def ctx_prog_fn(f, path):
 
 def _only_delim_edges(gg):
     return gg.edges
+
+
+def _root_user_local(f, op, hops=8):
+    """user local behind an operand through refs, derefs, index/slice calls and Deref::deref"""
+    l = prim.user_local_behind(f, op)
+    if l is not None:
+        return l
+    o = prim.origin_of_operand(f, op)
+    for x in o.walk():
+        if x.k == "var" and x.a.get("name") is not None:
+            return x.a["local"]
+    return None
